@@ -729,6 +729,7 @@ pub fn s_scenario(p: SP) -> Arc<dyn Fn() + Send + Sync> {
 
         xplore::exploring(true);
         let use_set = p.name == "set";
+        let use_remove = p.name == "remove";
         let mut hs = Vec::new();
         {
             let (rig, done, issued, set_done, set_issued, fill_raced) = (
@@ -760,6 +761,19 @@ pub fn s_scenario(p: SP) -> Arc<dyn Fn() + Send + Sync> {
                                  {lo:?} and be within {hi:?} fill_raced={}",
                                 fill_raced.load(std::sync::atomic::Ordering::SeqCst)
                             ));
+                        }
+                    } else if use_remove {
+                        // value 0 = "removed"
+                        let removed_before = done.load(std::sync::atomic::Ordering::SeqCst) == 0;
+                        let got = shuttle::future::block_on(r.get(0));
+                        if (removed_before || last == u64::MAX) && got.is_some() {
+                            xplore::report_violation(format!(
+                                "reader: get(k0) = {got:?} although the remove of k0 had completed before \
+                                 this read began (or an earlier read already saw it absent)"
+                            ));
+                        }
+                        if got.is_none() {
+                            last = u64::MAX;
                         }
                     } else {
                         let lo = done.load(std::sync::atomic::Ordering::SeqCst);
@@ -799,6 +813,15 @@ pub fn s_scenario(p: SP) -> Arc<dyn Fn() + Send + Sync> {
             );
             hs.push(shuttle::thread::spawn(move || {
                 let r = &rig;
+                if use_remove {
+                    // the only write: k0 is removed (its old value is in the
+                    // store and not in the cache: the reader's get is a fill)
+                    let mut b = r.new_batch();
+                    shuttle::future::block_on(r.single.remove(&0, &mut b));
+                    done.store(0, std::sync::atomic::Ordering::SeqCst);
+                    r.submit(b);
+                    return;
+                }
                 for v in 2..=3u64 {
                     let mut b = r.new_batch();
                     if use_set {
@@ -838,7 +861,11 @@ pub fn s_scenario(p: SP) -> Arc<dyn Fn() + Send + Sync> {
         let fin = shuttle::future::block_on(r.get(0));
         let fs = shuttle::future::block_on(r.iter(0));
         let raced = fill_raced.load(std::sync::atomic::Ordering::SeqCst);
-        if !use_set && fin != Some(3) {
+        if use_remove {
+            if fin.is_some() {
+                xplore::report_violation(format!("final get(k0) = {fin:?} after the remove"));
+            }
+        } else if !use_set && fin != Some(3) {
             xplore::report_violation(format!(
                 "final get(k0) = {fin:?}, expected 3 fill_raced={raced}"
             ));
@@ -860,12 +887,15 @@ pub fn s_params(thorough: bool) -> Vec<(SP, usize)> {
     let mut v = vec![
         (SP { name: "wide", cap: 1, grouping: Grouping::Never, workers: 1 }, 2),
         (SP { name: "set", cap: 1, grouping: Grouping::Never, workers: 1 }, 2),
+        (SP { name: "remove", cap: 1, grouping: Grouping::Never, workers: 1 }, 2),
     ];
     if thorough {
         v = vec![
             (SP { name: "wide", cap: 1, grouping: Grouping::Never, workers: 1 }, 3),
             (SP { name: "wide", cap: 2, grouping: Grouping::UpTo(2), workers: 2 }, 3),
             (SP { name: "set", cap: 1, grouping: Grouping::Never, workers: 1 }, 3),
+            (SP { name: "remove", cap: 1, grouping: Grouping::Never, workers: 1 }, 3),
+            (SP { name: "remove", cap: 4, grouping: Grouping::UpTo(2), workers: 2 }, 3),
         ];
     }
     v
